@@ -198,3 +198,164 @@ Definition hrp_ok (h : bytes) : bool :=
 
 Lemma std_hrps_checked : forallb hrp_ok std_hrps = true.
 Proof. vm_compute. reflexivity. Qed.
+
+Lemma std_facts h : In h std_hrps ->
+  (forall h', In h' (subs1 h ++ subs2 h) -> hdiff h h' <> 0) /\
+  (forall h' m, In h' (subs1 h) -> (1 <= m <= NMAX)%nat -> shift m (hdiff h h') = 0 \/ 32 <= shift m (hdiff h h')) /\
+  (forall h' j, In h' (subs1 h) -> (j < NMAX)%nat -> shift j (N.lxor (step0 (hdiff h h')) 1) <> BM) /\
+  forallb char_ok h = true /\ map to_lower h = h /\ Forall (fun c => beqb c sep = false) h.
+Proof.
+  intro Hh. pose proof std_hrps_checked as C. rewrite forallb_forall in C. specialize (C h Hh).
+  unfold hrp_ok in C. repeat (apply andb_true_iff in C as [C ?]).
+  rename H into F6, H0 into F5, H1 into F4, H2 into F3, H3 into F2.
+  rewrite forallb_forall in C, F2, F3. repeat split.
+  - intros h' I E. specialize (C h' I). rewrite E in C. discriminate.
+  - intros h' m I Hm. specialize (F2 h' I).
+    pose proof (scan_spec _ _ _ F2 (m - 1)%nat ltac:(lia)) as Q. unfold not_small in Q.
+    replace (shift (m - 1) (step0 (hdiff h h'))) with (shift m (hdiff h h')) in Q
+      by (destruct m as [|m]; [lia | cbn [shift]; f_equal; lia]).
+    apply orb_true_iff in Q as [Q|Q]; [left; apply N.eqb_eq; exact Q | right; apply N.leb_le; exact Q].
+  - intros h' j I Hj E. specialize (F3 h' I). pose proof (scan_spec _ _ _ F3 j Hj) as Q.
+    unfold not_BM in Q. rewrite E, N.eqb_refl in Q. discriminate.
+  - exact F4.
+  - apply bytes_eqb_eq. exact F5.
+  - rewrite forallb_forall in F6. apply Forall_forall. intros c Ic. specialize (F6 c Ic).
+    destruct (beqb c sep); [discriminate | reflexivity].
+Qed.
+
+(* ------------------------------------------------------------------ *)
+(* shape of a prefix with substituted characters                        *)
+(* ------------------------------------------------------------------ *)
+Lemma forallb_upd {A} (P : A -> bool) (l : list A) : forall i x, forallb P l = true -> P x = true ->
+  forallb P (upd l i x) = true.
+Proof.
+  induction l as [|a l IH]; intros [|i] x F Px; cbn in *; try reflexivity;
+    apply andb_true_iff in F as [F1 F2]; apply andb_true_iff; split; try assumption. apply IH; assumption.
+Qed.
+
+Lemma in_charset_facts c : In c charset -> char_ok c = true /\ to_lower c = c.
+Proof.
+  intro I. pose proof charset_ok as A. pose proof charset_lower as B. rewrite forallb_forall in A, B.
+  split; [apply A; exact I | apply beqb_eq; apply B; exact I].
+Qed.
+
+Lemma lower_upd h p c : map to_lower h = h -> In c charset -> map to_lower (upd h p c) = upd h p c.
+Proof. intros L I. rewrite upd_map, L. destruct (in_charset_facts c I) as [_ ->]. reflexivity. Qed.
+
+Lemma pre_upd h p c n : In c charset -> pre h n = true -> pre (upd h p c) n = true.
+Proof.
+  intros I P. unfold pre in *. rewrite upd_length.
+  apply andb_true_iff in P as [P P3]. apply andb_true_iff in P as [P1 P2].
+  rewrite P1, P3, (forallb_upd char_ok h p c P2 (proj1 (in_charset_facts c I))). reflexivity.
+Qed.
+
+(* rejection when only the prefix changed *)
+Lemma reject_hrp_change h h' syms cs data :
+  map to_lower h = h -> map to_lower h' = h' -> length h' = length h ->
+  (forall n, pre h n = true -> pre h' n = true) -> hdiff h h' <> 0 ->
+  to_chars syms = Some cs -> decode (h ++ sep :: cs) = DOk h data ->
+  decode (h' ++ sep :: cs) = DErr.
+Proof.
+  intros LH LH' Len PP G0 TC D.
+  rewrite (decode_canon _ _ _ TC LH) in D. rewrite (decode_canon _ _ _ TC LH').
+  destruct (decode_spec_ok_pre _ _ _ D) as [P [v [r ->]]].
+  eapply reject_by_syndrome; [exact D | reflexivity | apply PP; exact P | apply polymod_hrp_change; exact Len | |].
+  - apply shift_nonzero; [apply hdiff_bound | exact G0].
+  - intros _ _ N. congruence.
+Qed.
+
+(* ONE substituted character of the human-readable part *)
+Theorem detects_hrp_one h syms cs data p c0 c :
+  In h std_hrps -> to_chars syms = Some cs -> decode (h ++ sep :: cs) = DOk h data ->
+  nth_error h p = Some c0 -> In c charset -> c <> c0 ->
+  decode (upd h p c ++ sep :: cs) = DErr.
+Proof.
+  intros Hh TC D Hp Ic Nc. destruct (std_facts h Hh) as (F1 & _ & _ & _ & LH & _).
+  eapply reject_hrp_change; try eassumption.
+  - apply lower_upd; assumption.
+  - apply upd_length.
+  - intros n. apply pre_upd. exact Ic.
+  - apply F1. apply in_or_app. left. eapply subs1_in; eassumption.
+Qed.
+
+(* TWO substituted characters of the human-readable part *)
+Theorem detects_hrp_two h syms cs data p1 c01 c1 p2 c02 c2 :
+  In h std_hrps -> to_chars syms = Some cs -> decode (h ++ sep :: cs) = DOk h data ->
+  p1 <> p2 ->
+  nth_error h p1 = Some c01 -> In c1 charset -> c1 <> c01 ->
+  nth_error h p2 = Some c02 -> In c2 charset -> c2 <> c02 ->
+  decode (upd (upd h p1 c1) p2 c2 ++ sep :: cs) = DErr.
+Proof.
+  intros Hh TC D NE H1 I1 N1 H2 I2 N2. destruct (std_facts h Hh) as (F1 & _ & _ & _ & LH & _).
+  eapply reject_hrp_change; try eassumption.
+  - apply lower_upd; [apply lower_upd; assumption | assumption].
+  - rewrite !upd_length. reflexivity.
+  - intros n P. apply pre_upd; [exact I2|]. apply pre_upd; assumption.
+  - apply F1. apply in_or_app. right. eapply subs2_in; eassumption.
+Qed.
+
+(* ONE character of the human-readable part AND ONE symbol of the data part *)
+Theorem detects_hrp_and_data h syms cs data p c0 c i x y cs' :
+  In h std_hrps -> to_chars syms = Some cs -> decode (h ++ sep :: cs) = DOk h data ->
+  nth_error h p = Some c0 -> In c charset -> c <> c0 ->
+  nth_error syms i = Some y -> x <> y -> to_chars (upd syms i x) = Some cs' ->
+  decode (upd h p c ++ sep :: cs') = DErr.
+Proof.
+  intros Hh TC D Hp Ic Nc Hy Hxy TC'. destruct (std_facts h Hh) as (_ & F2 & F3 & _ & LH & _).
+  pose proof (subs1_in h p c0 c Hp Ic Nc) as Is.
+  set (h' := upd h p c) in *. set (G := hdiff h h').
+  assert (LH' : map to_lower h' = h') by (apply lower_upd; assumption).
+  rewrite (decode_canon _ _ _ TC LH) in D. rewrite (decode_canon _ _ _ TC' LH').
+  destruct (decode_spec_ok_pre _ _ _ D) as [P [v [r ->]]].
+  pose proof (pre_bound _ _ P) as [B12 BN].
+  pose proof (to_chars_sym_lt _ _ TC) as F. pose proof (to_chars_sym_lt _ _ TC') as F'.
+  assert (Hi : (i < length (v :: r))%nat) by (apply nth_error_Some; congruence).
+  assert (Xlt : n8 x < 32) by (apply (sym_lt _ i x F'), nth_error_upd_same; exact Hi).
+  pose proof (sym_lt _ _ _ F Hy) as Ylt.
+  assert (Ne : n8 x <> n8 y) by (intro E; apply n8_inj in E; contradiction).
+  pose proof (lxor_in_vals _ _ Xlt Ylt Ne) as V. apply in_vals in V.
+  set (n := length (v :: r)) in *. set (e := N.lxor (n8 x) (n8 y)) in *.
+  assert (PM : polymod (hrp_expand h' ++ ints (upd (v :: r) i x)) =
+               N.lxor (polymod (hrp_expand h ++ ints (v :: r))) (N.lxor (shift (n - 1 - i) e) (shift n G))).
+  { rewrite (polymod_hrp_change h h') by apply upd_length.
+    replace (length (ints (upd (v :: r) i x))) with n by (unfold ints, n; rewrite map_length, upd_length; reflexivity).
+    rewrite (polymod_upd h (v :: r) i x y Hy). fold n e G. apply N.lxor_assoc. }
+  assert (GB : G < 2 ^ 60) by apply hdiff_bound.
+  assert (S0 : N.lxor (shift (n - 1 - i) e) (shift n G) <> 0).
+  { intro E. apply N.lxor_eq in E.
+    replace n with ((i + 1) + (n - 1 - i))%nat in E at 2 by lia. rewrite shift_add in E.
+    apply shift_inj in E; [| change (2^60) with 1152921504606846976; lia | apply shift_bound; exact GB].
+    destruct (F2 h' (i + 1)%nat Is ltac:(lia)) as [Q|Q]; fold G in Q; lia. }
+  assert (PP : pre h' n = true) by (apply pre_upd; assumption).
+  destruct i as [|i].
+  - cbn [upd] in *. cbn [nth_error] in Hy. inversion Hy; subst y.
+    eapply reject_by_syndrome; [exact D | reflexivity | exact PP | exact PM | exact S0 |].
+    intros Hv Hx Hne. unfold e. rewrite (lxor_01 _ _ Hx Hv Hne).
+    replace (n - 1 - 0)%nat with (n - 1)%nat by lia.
+    replace (shift n G) with (shift (n - 1) (step0 G)) by (unfold n; cbn [length shift]; f_equal; lia).
+    rewrite <- shift_lxor, N.lxor_comm. apply (F3 h'); [exact Is | lia].
+  - cbn [upd] in *.
+    eapply reject_by_syndrome; [exact D | apply upd_length | | exact PM | exact S0 |].
+    + unfold n in PP. cbn [length] in *. rewrite upd_length. exact PP.
+    + intros _ _ Hne. congruence.
+Qed.
+
+(* a string without the separator (e.g. the "1" replaced by a character of the alphabet,
+   whatever else was changed) is rejected before any checksum is computed *)
+Theorem no_separator_rejected s : Forall (fun c => beqb c sep = false) s -> decode s = DErr.
+Proof.
+  intro F. unfold decode. rewrite decode_generic_unfold.
+  destruct (len_bad s); [reflexivity|]. destruct (negb (forallb char_ok s)); [reflexivity|].
+  destruct (case_bad s); [reflexivity|]. unfold dg_rest. rewrite last_index_lower.
+  unfold last_index. rewrite last_index_from_nosep by exact F. reflexivity.
+Qed.
+
+(* what DecodeGeneric does with a changed prefix: nothing, it does not look at the checksum *)
+Theorem decode_generic_ignores_checksum hrp syms cs : to_chars syms = Some cs -> map to_lower hrp = hrp ->
+  pre hrp (length syms) = true ->
+  decode_generic (hrp ++ sep :: cs) = GOk hrp (firstn (length syms - 12) syms) (skipn (length syms - 12) syms).
+Proof. intros TC LH P. rewrite (decode_generic_canon _ _ _ TC LH), P. reflexivity. Qed.
+
+(* non-vacuity: the example address of Proofs/Blech32.v has the testnet prefix *)
+Example ex_hrp_std : In ex_hrp std_hrps /\ nth_error ex_hrp 0 = Some (b8 116) /\ In (b8 113) charset.
+Proof. split; [vm_compute; tauto|]. split; [reflexivity | vm_compute; tauto]. Qed.
